@@ -306,6 +306,23 @@ func c06Validate(x *X, in *c06Input, g *Grid, tags []string, out string, calls [
 
 // c06Lifecycle: one long-lived wrapper whose configuration and table change between renders;
 // every render must reflect the configuration current at that moment.
+type c06SelfWriter struct {
+	ht    *thtml.HTMLTable
+	buf   strings.Builder
+	calls int
+	at    int
+	inner []string
+}
+
+func (w *c06SelfWriter) Write(p []byte) (int, error) {
+	w.calls++
+	if w.ht != nil && w.calls == w.at {
+		o, _ := w.ht.Render()
+		w.inner = append(w.inner, o)
+	}
+	return w.buf.Write(p)
+}
+
 func c06Lifecycle(x *X, c *Chooser, depth int) {
 	g := &Grid{HasHeader: true, Header: []string{"h1", "h2"}, Rows: []GridRow{{Cells: []string{"c1", "c2"}}, {Sep: true}, {Cells: []string{"d1"}}}}
 	t := thtml.New()
@@ -457,7 +474,50 @@ func c06Lifecycle(x *X, c *Chooser, depth int) {
 	}
 }
 
+// family "re-entrant-same-wrapper": the wrapper (without a row-class generator, whose context is documented as not
+// re-entrant) is rendered again from inside its own render: the writer calls ht.Render() before accepting Write #k.
+func runC06Reentrant(x *X) {
+	grids := []*Grid{
+		{HasHeader: true, Header: []string{"h1", "h2", "h3"}, Rows: []GridRow{{Cells: []string{"r1c1", "r1<c2>", "r1'c3"}}, {Sep: true}, {Cells: []string{"r2c1"}}, {Cells: []string{"r3c1", "r3<c2>", "r3'c3"}}}},
+		{Rows: []GridRow{{Cells: []string{"a&", "b"}}, {Cells: []string{"c", "d\"", "e"}}}},
+	}
+	x.Explore("re-entrant-same-wrapper", ExploreOpts{ShardDepth: 2, Bound: "2 tables x every Write index k of the render: the writer calls Render() on the SAME wrapper before accepting Write #k; outer and inner output validated"}, func(c *Chooser) {
+		g := grids[c.Choose(len(grids))]
+		probe := thtml.New()
+		g.Build(probe)
+		pw := &c06SelfWriter{}
+		probe.RenderTo(pw)
+		if pw.calls == 0 {
+			return
+		}
+		at := 1 + c.Choose(pw.calls)
+		t := thtml.New()
+		g.Build(t)
+		in := &c06Input{g: g}
+		c.Logf("html table %s; RenderTo(writer that calls Render() on the same wrapper before accepting Write #%d of %d)", g, at, pw.calls)
+		x.Transition(1)
+		x.Nontrivial(fmt.Sprint(g.ShapeKey(), at))
+		nw := &c06SelfWriter{ht: t, at: at}
+		var err error
+		if p, val, site := Safe(func() { err = t.RenderTo(nw) }); p {
+			x.FailSite("C06.no_panic", []string{"panic", "re_entrant_same_wrapper"}, site, "html RenderTo with a re-entrant writer panicked: %v", val)
+			return
+		}
+		x.Clause("C06.succeeds")
+		if err != nil {
+			x.Fail("C06.succeeds", []string{"re_entrant_same_wrapper"}, "html RenderTo failed: %v", err)
+			return
+		}
+		for i, o := range append([]string{nw.buf.String()}, nw.inner...) {
+			if !c06Validate(x, in, g, []string{"re_entrant_same_wrapper", fmt.Sprintf("output:%d", i)}, o, nil, 0) {
+				return
+			}
+		}
+	})
+}
+
 func runC06(x *X) {
+	runC06Reentrant(x)
 	runC06Items(x)
 	runC06FromCallback(x)
 	x.Explore("wrapper-lifecycle", ExploreOpts{ShardDepth: 2, Bound: fmt.Sprintf("all sequences of <=%d operations {set generator A, set generator B, set caption, set id+class, add row, add separator, Render, RenderTo a writer failing at / half-way through its first Write, Render with a generator that panics, AddHeaders(1 cell), AddHeaders(3 cells), a generator that renders another html wrapper from inside the render, a body cell replaced in place} on one long-lived wrapper", x.Pick(5, 6))}, func(c *Chooser) {
